@@ -103,7 +103,29 @@ class C02(Prop):
         return [{"id": "E1", "facts_changed": bool(changed)}]
 
     # --- generation ------------------------------------------------------------------------------------------
-    TOOLS = [("ident", []), ("tool1", [])]
+    TOOLS = [("ident", []), ("tool1", []), ("first", [])]
+
+    def _big_lines(self, rng, tier):
+        """large VALUES on every pathway and entry point: the caller receives all of what Python computes"""
+        sizes = mito.BIG_SIZES_QUICK if tier == "quick" else mito.BIG_SIZES
+        ml = (self.facts.get("max_len") or 10000)
+        kind, src = mito.big_text(rng, ml, sizes)
+        k = rng.random()
+        if k < 0.40:
+            return [mito.cmet_line(rng.choice(["math", "math", "auto", "logic"]), src)]
+        if k < 0.60:
+            return [mito.cdg_line(src, mito.str_raises_of(src))]
+        if k < 0.80 and len(src) + 20 <= ml:
+            t = rng.choice(["first({})", "first(k={})", "ident({})", "ident(1, x={})", "first(max([{}]))"]).format(src)
+            return [mito.cmet_line(rng.choice(["tool", "auto"]), t)]
+        if k < 0.90:
+            n = rng.choice([4097, 5000, 9000])
+            lit = rng.choice([mito.long_const(n), "[" + mito.long_const(n) + "]", "(1, " + mito.long_const(n, "é") + ")",
+                              "[" + ", ".join(["0"] * (n // 3)) + "]", "  " + mito.long_const(n, " ")])
+            return [mito.cmet_line(rng.choice(["transform", "auto", "math"]), lit)]
+        n = rng.choice([4097, 4500])
+        t = rng.choice(mito.LONGCONST_TRACER).format(c=mito.long_const(n), d=mito.long_const(n, "y"))
+        return [mito.met_line("math", t), mito.pyev_line(t)]
 
     def _tool_text(self, rng, depth):
         """a tool call whose arguments are allowed-subset expressions (nested allow-listed calls with keywords)"""
@@ -127,6 +149,9 @@ class C02(Prop):
         lines = mito.header(rng, self.facts, tools=self.TOOLS, silent=True, ros=(1000, 1))
         for _ in range(rng.choice([6, 8, 10])):
             k = rng.random()
+            if rng.random() < 0.06:
+                lines += self._big_lines(rng, self._tier)
+                continue
             if k < 0.04:
                 els = [rng.choice(['"\\/"', '"\\ud83d\\ude00"', '"\\u00e9"', "'a'", '"b"', "1", "2.5", "1e5", "-0", "True",
                                    "None", "[1]", "(1, 2)", '"\\n"', "1_0", "0x1f", '"\\x41"', "true", "pi", "1 + 1"])
@@ -191,7 +216,10 @@ class C02(Prop):
             lines += mito.history_block(rng, self.facts, src, concrete=True, silent=True, ros=(1000, 1))
         return {"lines": lines, "note": "history"}
 
+    _tier = "quick"
+
     def generate(self, rng, tier, n):
+        self._tier = tier
         for i in range(n):
             d = rng.choice([1, 2, 2, 3] if tier == "quick" else [2, 3, 4, 5])
             yield self._history_case(rng, min(d, 3)) if i % 4 == 1 else self._case(rng, d)
@@ -281,6 +309,40 @@ class C02(Prop):
             cases.append({"lines": lines, "note": "list displays on the transform pathway"})
         spaces.append({"name": f"{len(TRANSFORM)} list displays (string escapes, number spellings, JSON-only names) x "
                                "auto / transform / math vs Python", "cases": cases})
+        # large values: every form x size x position, on every pathway and entry point
+        cases = []
+        ml = self.facts.get("max_len") or 10000
+        sizes = mito.BIG_SIZES_QUICK if tier == "quick" else mito.BIG_SIZES
+        j = 0
+        for n in sizes:
+            lines = mito.header(rng, self.facts, tools=self.TOOLS, silent=True, ros=(1000, 1))
+            for (kind, b, z) in mito.big_forms(n, ml):
+                j += 1
+                w = mito.BIG_WRAPS[2 + j % (len(mito.BIG_WRAPS) - 2)].format(b=b, z=z)
+                texts = [b] + ([w] if len(w) <= ml else [])
+                for src in texts:
+                    lines.append(mito.cmet_line("math", src))
+                    if j % 2 or src is b:
+                        lines.append(mito.cmet_line("auto", src))
+                lines.append(mito.cmet_line("logic", b))
+                if n <= 70000 or tier != "quick":
+                    lines.append(mito.cdg_line(b, mito.str_raises_of(b)))
+                if len(b) + 20 <= ml:
+                    lines.append(mito.cmet_line("tool", f"first({b})"))
+                    lines.append(mito.cmet_line("auto", f"ident(1, k={b})" if j % 2 else f"first(k={b})"))
+                    if b[0] in "'\"" and "*" not in b and "%" not in b:
+                        lines.append(mito.cmet_line("transform", b))
+                        lines.append(mito.cmet_line("auto", "[" + b + "]"))
+            cases.append({"lines": lines, "note": f"large values (size {n})"})
+        lines = H()
+        for n in (4097, 4800):
+            for tpl in mito.LONGCONST_TRACER:
+                t = tpl.format(c=mito.long_const(n), d=mito.long_const(n, "y"))
+                lines += [mito.met_line("math", t), mito.pyev_line(t)]
+        cases.append({"lines": lines, "note": "long string constants over tracers"})
+        spaces.append({"name": f"large values (strings / lists / tuples / ints / bytes of {len(sizes)} sizes around 4 Ki, 8 Ki, "
+                               "64 Ki, 1 Mi; repetition, concatenation, formatting, one long literal) x position x math / "
+                               "logic / auto / tool / transform / digest_glucose / agent", "cases": cases})
         # every allow-listed name with concrete arguments; every operator on concrete operand pairs
         cases, lines = [], None
         srcs = []
